@@ -48,12 +48,16 @@ def gen_case(rng):
         x, y = x[:, 0], y[:, 0]
     K = int(rng.integers(1, 16))
     bound = gens.pick(rng, [np.inf, np.inf, 1.0, 0.3, 0.05])
-    return {'kind': 'kdt', 'x': x, 'y': y, 'K': K, 'bound': float(bound), 'ties': ties, 'positional': bool(rng.random() < .3)}
+    same = bool(rng.random() < .06)      # the very same array object as both feature sets (every row then has itself as its nearest candidate)
+    return {'kind': 'kdt', 'x': x, 'y': (x if same else y), 'K': K, 'bound': float(bound), 'ties': ties, 'positional': bool(rng.random() < .3), 'same_object': same}
 
 
 def check(ctx, case):
     from emd import cycles as C
     x, y, K, bound = case['x'], case['y'], case['K'], case['bound']
+    if case.get('same_object'):
+        y = x
+        ctx.count('calls_with_the_same_object_as_both_sets')
     X = np.asarray(x[:, None] if x.ndim == 1 else x, dtype=float)
     Y = np.asarray(y[:, None] if y.ndim == 1 else y, dtype=float)
     dig = digest(x, y, K, bound)
